@@ -328,7 +328,12 @@ def attempts(canary):
          "bind_native('run'); run('%s')" % os.path.join(canary, "script.ckl"),
          "require OS; OS->make_dir('%s')" % new,
          "require IO; IO->read_file('%s')" % f,
-         "require IO unqualified; file_input('%s')" % f]
+         "require IO unqualified; file_input('%s')" % f,
+         # the module search itself: a missing module looked for in a directory of the program's choosing must not make
+         # the interpreter list or read anything there beyond the module file it was asked for
+         "def checkerlang_module_path = ['%s']; require nosuch_module_xyz" % canary,
+         "def checkerlang_module_path = ['%s']; require 'secret.txt'" % canary,
+         "def checkerlang_module_path = ['%s', '%s']; require nosuch_module_xyz import [a]" % (canary, os.path.dirname(canary))]
     return a
 
 
